@@ -12,6 +12,7 @@ from typing import (
     Union,
 )
 
+import numpy as np
 import onnx_ir as ir
 
 import onnxscript
@@ -583,6 +584,10 @@ class Converter:
             return None
         attr_type = attr_meta.type if attr_meta else None
         if attr_type == ir.AttributeType.TENSOR:
+            if isinstance(val, np.ndarray):
+                # Script-time constants are fixed at translation time: do not share the
+                # buffer of an array the caller may mutate later.
+                val = val.copy()
             val = ir.tensor(val)
         attr = ir.convenience.convert_attribute(attr_name, val, attr_type)
         return attr
